@@ -52,6 +52,10 @@ def instances(tier):
         for rotation in (True, False):
             out.append(("similarity", {"mirror": mirror, "rotation": rotation, "pts": 3}))
     out.append(("rotation2d_recover", {"pts": 3}))
+    for cls, n in (("AlignmentTranslation", 2), ("AlignmentTranslation", 3), ("AlignmentUniformScale", 2),
+                   ("AlignmentUniformScale", 3), ("AlignmentAffine", 2), ("AlignmentRotation", 2),
+                   ("AlignmentSimilarity", 2)):
+        out.append(("recover_persists", {"cls": cls, "n": n}))
     sets = [1] if tier == "quick" else [0, 1, 2]
     for s in sets:
         for kern in ("R2LogR2RBF", "R2LogRRBF"):
@@ -235,6 +239,64 @@ def rotation2d_recover(F, ob, cfg):
     al = AlignmentRotation(PointCloud(s, copy=False), PointCloud(s.dot(R0.T), copy=False))
     ob.eq("recover", al.h_matrix[:2, :2], R0)
     ob.true("rotation.called_once", len(log) == 1)
+
+
+def recover_persists(F, ob, cfg):
+    """the alignment that recovered a family member keeps doing so while objects DERIVED from it (a copy that is
+    retargeted, from_vector's result, a retargeted pseudoinverse) go their own way: the clauses of the property
+    are about the alignment object the caller holds, not about the moment after construction"""
+    import menpo.transform as mt
+    from menpo.shape import PointCloud
+
+    cls, n = cfg["cls"], cfg["n"]
+    pts = n + 1 if cls != "AlignmentAffine" else n + 2
+    s = F.reals("s", (pts, n), -4, 4)
+    S = PointCloud(s, copy=False)
+    sc = s - S.centre()
+    F.assume((sc * sc).sum() >= 0.05)
+    fam = cls.replace("Alignment", "")
+    if cls == "AlignmentAffine":
+        a = S.h_points()
+        nd = K.det(a.dot(a.T))
+        F.assume(F.or_(nd >= 0.05, nd <= -0.05))
+    if cls in ("AlignmentRotation", "AlignmentSimilarity"):
+        lapack.install_rotation_oracle(F, [], optimal=True)
+    if cls == "AlignmentUniformScale":
+        k0 = F.real("k0", 0.05, 4)
+        A, tr = K.eye(F, n) * k0, np.zeros(n)
+        # menpo's scale alignment is about the origin: the recovered member is the pure scaling
+    elif cls == "AlignmentSimilarity":
+        A, tr = K.linear_of(F, "Similarity", "m", n)
+    else:
+        A, tr = K.linear_of(F, fam, "m", n)
+    tgt = s.dot(A.T) + tr
+    al = getattr(mt, cls)(S, PointCloud(tgt, copy=False))
+    before = K.snapshot(al.h_matrix)
+    # derived objects
+    t2 = F.reals("t2", (pts, n), -4, 4)
+    if cls in ("AlignmentUniformScale", "AlignmentSimilarity"):
+        T2 = PointCloud(t2, copy=False)
+        tc = t2 - T2.centre()
+        F.assume((tc * tc).sum() >= 0.05)
+    c = al.copy()
+    c.set_target(PointCloud(t2, copy=False))
+    if cls in ("AlignmentTranslation", "AlignmentUniformScale", "AlignmentAffine"):
+        p = F.reals("p", (al.n_parameters,), 0.25, 2)
+        v = al.from_vector(p)
+        ob.true("from_vector.is_new_object", v is not al)
+        u = al.copy()
+        u.from_vector_inplace(p * 0.5 + 1)
+    # the original still recovers the member and reports consistently
+    K.same_terms(F, ob, "h_matrix.kept", before, al.h_matrix)
+    if cls in ("AlignmentTranslation", "AlignmentUniformScale", "AlignmentAffine"):
+        ob.eq("recover", al.h_matrix, K.h_of(F, A, tr))
+    ob.eq("target.kept", al.target.points, tgt)
+    _common(F, ob, al, pts)
+    if cls in ("AlignmentTranslation", "AlignmentAffine") or (cls == "AlignmentUniformScale" and n == 2):
+        # (for the other classes recovery at construction is the subject of uniform_scale / rotation2d_recover /
+        # similarity; the termwise unchanged matrix carries it over, re-deriving it here is beyond the solver)
+        ob.eq("aligned_source=target", al.aligned_source().points, tgt)
+        ob.eq("exact.error=0", al.alignment_error(), 0)
 
 
 def similarity(F, ob, cfg):
